@@ -134,7 +134,7 @@ META["C08"] = dict(cat="model_checking", design="6 C08",
 META["C16"] = dict(cat="model_checking", design="6 C16",
                    text="MC_Calls explores every interleaving of 3 threads x 2 inputs x every initial stack content of the call model "
                         "(uninitialised per-frame scratch vector, write-before-length, no shared state, no memo) and checks that the four "
-                        "failure designs (shared scratch, length before write, per-thread / global memo keyed by a prefix) are caught; the real parse_float is called with 7 iterator shapes after stack "
+                        "failure designs (shared scratch, length before write, per-thread / global memo keyed by a prefix) are caught; the real parse_float is called with 11 iterator shapes after stack "
                         "poisoning, from 8 concurrent threads, and in histories of related inputs run back to back on one thread (19-digit "
                         "prefix / just below / exact tie / just above a midpoint, exponent one off, other float format); the CF_Calls "
                         "trace specification accepts a Return only if it carries what a fresh process returns for that input alone.",
